@@ -1,7 +1,7 @@
 #!/bin/bash
-# usage: rf_detail.sh <check> -- show report lines for every batch patch on which <check> is not silent (from /tmp/b2_all.log)
+# usage: rf_detail.sh <check> -- show report lines for every batch patch on which <check> is not silent (from ${B2LOG:-/tmp/b2_all_2.log})
 cd /verif
-grep " $1 " /tmp/b2_all.log | awk '{print $2}' | while read p; do
+grep " $1 " ${B2LOG:-/tmp/b2_all_2.log} | awk '{print $2}' | while read p; do
   echo "### $p"
   python3 tools/check_refactors.py --only $p $1 2>&1 | grep "^    " | cut -c1-${2:-420}
 done
